@@ -95,7 +95,9 @@ def method(ci, name):
 
 
 def ret_exprs(fi):
-    return [n.value for n in ast.walk(fi.node) if isinstance(n, ast.Return) and n.value is not None and not any(
+    """returned expressions, with single-assignment locals substituted (`lengths = [...]; return sum(lengths)`)"""
+    from ..flatten import resolve_locals
+    return [resolve_locals(fi.node, n.value) for n in ast.walk(fi.node) if isinstance(n, ast.Return) and n.value is not None and not any(
         isinstance(p, (ast.FunctionDef, ast.Lambda)) and p is not fi.node for p in parents(n))]
 
 
